@@ -137,25 +137,10 @@ def classify(b, diff, a, e):
     if b["dialect"] == "non-validating" and t & {"select.star_qualified", "select.star"} and diff == ["column_pairs"] and \
             any(p[0].endswith(".*") for k in ("original_mapped_minus_renamed", "renamed_minus_original") for p in _pairs(b, k)):
         return "KF-30e"  # whether the legacy analyzer expands a star over a derived table depends on how the aliases around it are spelled
-    # KF-36: the alias of the first relation of a parenthesised join group falls through to a table named after the alias - which the renaming renames
-    if "join.parenthesised_group_first_aliased" in t and diff == ["column_pairs"]:
-        return "KF-36"
-    if "join.parenthesised_group" in t and diff == ["column_pairs"]:
-        # add_alias may have put an alias on the first relation of a parenthesised join group: its qualifier then falls through to a table named after it
-        newnames = {str(v).lower() for v in (b.get("mapping") or {}).values()}
-        rm = _pairs(b, "renamed_minus_original")
-        if rm and all(p[0].startswith("<default>.") and p[0].split(".")[1] in newnames for p in rm):
-            return "KF-36"
-    # KF-24: relations joined inside a derived table leak into the enclosing scope; an alias that equals the bare name of such a leaked
-    # table then competes with it for the same key of the alias map
-    if "join.derived_with_inner_join" in t and any(str(v).startswith("tb_k") for v in (b.get("mapping") or {}).values()) and diff == ["column_pairs"]:
-        return "KF-24"
-    # KF-32 / KF-01: which relations of a FROM clause survive these parse quirks depends on whether they carry aliases
+    # KF-32: which relations of a FROM clause survive this parse quirk depends on whether they carry aliases
     if diff == ["source"] or diff == ["source", "column_pairs"]:
         if "where.in_subquery_comma_join" in t:
             return "KF-32"
-        if "from.mixed_comma_join" in t:
-            return "KF-01"
     return None
 
 
